@@ -51,7 +51,12 @@ func (m MemoryCache) Get(height int64, key []byte) ([]byte, error) {
 	if m.isHeightSafeToRead(height) {
 		for i := range m.pastHeights {
 			if m.pastHeights[i].height == height {
-				return []byte(m.pastHeights[i].data[string(key)]), nil
+				value, ok := m.pastHeights[i].data[string(key)]
+				if !ok {
+					// absent at this height: nil, like the tree, not an empty value
+					return nil, nil
+				}
+				return []byte(value), nil
 			}
 		}
 	}
